@@ -20,6 +20,7 @@ INVARIANT AllOnce
 INVARIANT KCL
 INVARIANT FreeEndZero
 INVARIANT JunctionEndIsSum
+INVARIANT ConnectedOnlyIfJoined
 INVARIANT Dump
 INVARIANT RejectDump
 CHECK_DEADLOCK FALSE
